@@ -243,6 +243,20 @@ def appSendWs (cfg : Cfg) (token : Bytes â†’ Bytes) (ext : Option Bytes) (st : S
 
 /-! ### the reader side -/
 
+/-- position of an h11 state in the order the extractor numbers them (`Guards.h11ErrorIgnored`) -/
+def hstIdx : HSt â†’ Nat
+  | .idle => 0 | .sendResponse => 1 | .sendBody => 2 | .done => 3 | .mustClose => 4 | .closed => 5 | .error => 6
+  | .mightSwitch => 7 | .switched => 8
+
+/-- the guard under which `_handle_events` ignores a RemoteProtocolError (`if <guard>: break`), as extracted from the source -/
+def errIgnored (st : St) : Bool :=
+  Guards.h11ErrorIgnored st.cur.isSome st.requestComplete (hstIdx st.lib.server) (hstIdx st.lib.client)
+
+/-- with the guard the source has (`self.stream is not None and self.request_complete`; the theorems that need it discharge `hg`
+    by `rfl` on the extracted definition) the error is only ever ignored after a COMPLETE request whose stream is live -/
+theorem errIgnored_eq (hg : âˆ€ a b o t, Guards.h11ErrorIgnored a b o t = (a && b)) (st : St) :
+    errIgnored st = (st.cur.isSome && st.requestComplete) := hg _ _ _ _
+
 def decodeAsciiUpper (b : Bytes) : String := Bytes.toString (Bytes.upper b)
 
 def validServerName (cfg : Cfg) (hs : Headers) : Bool :=
@@ -292,7 +306,7 @@ def onLibEvBody (cfg : Cfg) (st : St) (o0 : List Out) (e : LibEv) : Option (St Ã
     let lib' := H11M.recvError st.lib
     let st := { st with lib := lib' }
     -- unexpected data after a complete request while its stream is live: ignored, the response in progress continues
-    if st.cur.isSome && st.requestComplete then some ({ st with pc := .idle }, o0) else
+    if errIgnored st then some ({ st with pc := .idle }, o0) else
     let (st, o1) :=
       if lib'.server == .idle || lib'.server == .sendResponse then
         let (st1, a, _) := libSend st (.response hint ([("content-length".b, "0".b), ("connection".b, "close".b)] ++ cfg.serverHeaders))
